@@ -55,7 +55,8 @@ impl<T> ChannelSlots<T> {
             Some(id) => id,
             None => return self.insert_unused_channel_id(make_entry),
         };
-        if channel_id > self.channel_max {
+        // channel 0 is the connection's own channel and never available
+        if channel_id == 0 || channel_id > self.channel_max {
             return UnavailableChannelIdSnafu { channel_id }.fail();
         }
         match self.slots.entry(channel_id) {
